@@ -44,15 +44,10 @@ theorem check_restart_faulty (v : Variant) (w now : Int) (c : Child) (ha : c.ali
     checkChild v .restart true true c.obs (restartOne (recordFault w now (suspend c))).1.obs = true := by
   cases v <;> child_cases c
 
-/-- Restart, a sibling in the group, as the code does it: a running sibling's count becomes 1 -/
-theorem check_restart_sibling_code (w now : Int) (c : Child) :
-    checkChild .code .restart false true c.obs (restartOne (recordFault w now c)).1.obs = true := by
-  child_cases c
-
-/-- ... and as the text wants it, provided a running sibling was never restarted before -/
-theorem check_restart_sibling_text (w now : Int) (c : Child) (h0 : c.alive = true → c.rc = 0) :
-    checkChild .text .restart false true c.obs (restartOne (recordFault w now c)).1.obs = true := by
-  child_cases c
+/-- Restart, a sibling in the group: PreStart again, fresh state, restart count + 1 (also when it was running) -/
+theorem check_restart_sibling (v : Variant) (w now : Int) (c : Child) :
+    checkChild v .restart false true c.obs (restartOne (recordFault w now c)).1.obs = true := by
+  cases v <;> child_cases c
 
 /-- budget exhausted, the faulty child stays suspended -/
 theorem check_exhausted_faulty (v : Variant) (w now : Int) (i : Nat) (c : Child) (ha : c.alive = true) :
